@@ -7,6 +7,7 @@ time-outs firing whenever the receive is not possible), by an inductive invarian
 -/
 import ToastyVerif.Model.Stage
 import ToastyVerif.Gen.Stage
+import ToastyVerif.Gen.Plumbing
 
 namespace C03
 open Stage
@@ -796,5 +797,9 @@ example : ∃ s, run (init 2 4 true [0, 1, 2])
      .flagQ 0 true, .rlock 0, .recv 0 2, .cb 0 2, .flagQ 1 true, .rlock 1, .empty 1, .flagQ 0 true, .rlock 0, .empty 0,
      .join 0, .join 1] = some s ∧ s.pc = .returned ∧ s.processed = [(0, 0), (1, 1), (2, 0)] :=
   ⟨_, rfl, rfl, rfl⟩
+
+/-- **entry_points**: the call sites through which this property's workflows reach the modelled functions have, in the source as
+it is now, the argument plumbing the model assumes (facts re-extracted on every run, `Gen/Plumbing.lean`) -/
+theorem entry_points : Gen.Plumbing.multi_tan_tile_argument_order = true ∧ Gen.Plumbing.multi_wcs_tile_argument_order = true ∧ Gen.Plumbing.visit_leaves_hands_resolved_parallelism = true := by decide
 
 end C03
